@@ -510,7 +510,9 @@ func (s *storage) cleanupArchetypes(target Entity) {
 			table := &s.tables[tables.tables[i]]
 
 			for _, rel := range table.relationIDs {
-				if rel.target.id == target.id {
+				// Also reset other targets that were removed in the same batch,
+				// as they can't be used as targets of the new table.
+				if rel.target.id == target.id || (!rel.target.IsZero() && !s.entityPool.Alive(rel.target)) {
 					newRelations = append(newRelations, relationID{component: rel.component, target: Entity{}})
 				}
 			}
